@@ -63,6 +63,8 @@ type Contract struct {
 	Ghosts   []*GhostUpd
 	GParams  []GhostParam
 	Loops    map[int]*LoopSpec
+	InLoops  map[string]*LoopSpec // loops of inlined callees: "Reduce.0"
+	InlineCalls []string
 	Pure     bool
 	Inline   bool
 	Params   []string // for ext blocks: parameter names
@@ -119,7 +121,7 @@ type PkgSpec struct {
 	Axioms    []*Clause
 }
 
-var kwRe = regexp.MustCompile(`^(pure|pred|ghostinit|ghost|func|props|requires|ensures|panics|pensures|modifies|ghostparam|uses|loop|ext|lemma|axiom|inline|trusted|decreases|ispure|params|results|end|sort|ufun|callback|before|after|invokes)\b`)
+var kwRe = regexp.MustCompile(`^(pure|pred|ghostinit|ghost|func|props|requires|ensures|panics|pensures|modifies|ghostparam|uses|inlinecall|loop|ext|lemma|axiom|inline|trusted|decreases|ispure|params|results|end|sort|ufun|callback|before|after|invokes)\b`)
 
 func loadPkgSpec(dir, pkgPath string) (*PkgSpec, error) {
 	ps := &PkgSpec{Path: pkgPath, Macros: map[string]*Macro{}, Ghosts: map[string]*GhostField{}, Contracts: map[string]*Contract{}, Sorts: map[string]bool{}, UFuns: map[string]*UFun{}, Callbacks: map[string]*Contract{}}
@@ -380,6 +382,8 @@ func (ps *PkgSpec) parseFile(file, data string) error {
 				cur.Modifies = append(cur.Modifies, e)
 				cur.ModSrc = append(cur.ModSrc, part)
 			}
+		case "inlinecall":
+			cur.InlineCalls = append(cur.InlineCalls, strings.Fields(strings.ReplaceAll(rest, ",", " "))...)
 		case "uses":
 			cur.Uses = append(cur.Uses, strings.Fields(strings.ReplaceAll(rest, ",", " "))...)
 		case "ghostparam":
@@ -394,14 +398,23 @@ func (ps *PkgSpec) parseFile(file, data string) error {
 			if ci < 0 || cur == nil {
 				return errf("bad loop clause")
 			}
-			k, err := strconv.Atoi(strings.TrimSpace(rest[:ci]))
-			if err != nil {
-				return errf("bad loop ordinal")
-			}
-			ls := cur.Loops[k]
-			if ls == nil {
-				ls = &LoopSpec{}
-				cur.Loops[k] = ls
+			var ls *LoopSpec
+			if k, err := strconv.Atoi(strings.TrimSpace(rest[:ci])); err == nil {
+				ls = cur.Loops[k]
+				if ls == nil {
+					ls = &LoopSpec{}
+					cur.Loops[k] = ls
+				}
+			} else {
+				key := strings.TrimSpace(rest[:ci])
+				if cur.InLoops == nil {
+					cur.InLoops = map[string]*LoopSpec{}
+				}
+				ls = cur.InLoops[key]
+				if ls == nil {
+					ls = &LoopSpec{}
+					cur.InLoops[key] = ls
+				}
 			}
 			body := strings.TrimSpace(rest[ci+1:])
 			switch {
